@@ -275,6 +275,7 @@ def correspond(ctx):
             digits = re.sub(r"^0[xXbB]", "", s)
             add("read", "read " + s, "read %d %s" % (base, digits), ("read", v, base, s))
     # (b) reader, float spellings (oracle only)
+    add("read-float", "read " + WITNESS_HEXEXP, "?", ("readf", Fraction(1, 2 ** 1030), WITNESS_HEXEXP))
     add("read-float", "read " + WITNESS_HEXFLOAT, "?", ("readf", Fraction(float.fromhex("0x1.4b7726200377363c577p-8").hex() and int("14b7726200377363c577", 16), 16 ** 19) * Fraction(1, 2 ** 8), WITNESS_HEXFLOAT))
     for _ in range(ctx.scale(300, 4000)):
         x = abs(rand_float(rng))
@@ -370,6 +371,11 @@ def correspond(ctx):
                 if s != WITNESS_HEXFLOAT and s.startswith("0x") and hexfloat_wide(s) and mm and abs(int(mm.group(1), 16) - want) == 1 \
                         and hexfloat_witness_fails(il, impl_lines):
                     dist["attributed:read " + WITNESS_HEXFLOAT] = dist.get("attributed:read " + WITNESS_HEXFLOAT, 0) + 1
+                    continue
+                mexp = re.search(r"[pP]([+-]?\d+)$", s)
+                if s != WITNESS_HEXEXP and s.startswith("0x") and mexp and abs(int(mexp.group(1))) >= 1024 and mm \
+                        and (int(mm.group(1), 16) & 0x7fffffffffffffff) in (0, 0x7ff0000000000000) and hexexp_witness_fails(il, impl_lines):
+                    dist["attributed:read " + WITNESS_HEXEXP] = dist.get("attributed:read " + WITNESS_HEXEXP, 0) + 1
                     continue
                 viol(line, "float literal reader: %s reads as %s, the correctly rounded binary64 is %016x" % (s, got, want),
                      {"case": line, "implementation": got, "oracle": "%016x" % want})
@@ -561,6 +567,14 @@ def correspond(ctx):
 
 EMIT_WITNESS = "emit int64 18446744073709551621 16"
 WITNESS_HEXFLOAT = "0x1.4b7726200377363c577p-8"
+WITNESS_HEXEXP = "0x1p-1030"
+
+
+def hexexp_witness_fails(il, impl_lines):
+    for l, g in zip(impl_lines, il):
+        if l == "read " + WITNESS_HEXEXP:
+            return ":0000000000000000 " in g
+    return False
 
 
 def hexfloat_wide(s):
